@@ -172,6 +172,16 @@ def _shrink(path, limit=8 << 20):
         pass
 
 
+def _die_with_parent():
+    """TLC must not outlive an interrupted check (PR_SET_PDEATHSIG = 1)"""
+    try:
+        import ctypes
+        import signal
+        ctypes.CDLL("libc.so.6", use_errno=True).prctl(1, signal.SIGKILL)
+    except Exception:  # noqa
+        pass
+
+
 def run(name, root, defs, cfg, workers=1, timeout=3600, simulate=None, depth=None, seed=None,
         xss="64m", heap="3g", keep_exports=True, coverage=False, extra_env=None, deadlock=False):
     """Run one TLC job synchronously."""
@@ -199,7 +209,7 @@ def run(name, root, defs, cfg, workers=1, timeout=3600, simulate=None, depth=Non
     t0 = time.time()
     with open(out, "w") as fh:
         try:
-            p = subprocess.run(cmd, cwd=d, stdout=fh, stderr=subprocess.STDOUT, timeout=timeout, env=env)
+            p = subprocess.run(cmd, cwd=d, stdout=fh, stderr=subprocess.STDOUT, timeout=timeout, env=env, preexec_fn=_die_with_parent)
             rc = p.returncode
         except subprocess.TimeoutExpired:
             rc = -9
